@@ -87,6 +87,25 @@ def run(tier):
         okc = sorted(vals) == sorted([(8, (fl,)), (1, (('φ_%d' % cur, 1),))])
     res.require(okc, 'C01:DataFrame::build_into:cursor', 'FPort/FRMPayload offset is not 8 + FOptsLen (+1 after the port byte)', bf.body.path, 'SPEC-LAYOUT(offset of FPort)',
                 instance='FPort at 8 + len(FOpts); FRMPayload right after it')
+    # contiguity: the MIC starts where the FRMPayload ends (no byte of the frame is left unwritten)
+    micw0 = [x for x in writes if x[0] == 'range' and x[2] is None]
+    frmw = [x for x in writes if x[0] == 'range' and is_port_cursor(x[1]) and isinstance(x[2], tuple)]
+    okg = len(micw0) == 1 and len(frmw) == 1 and isinstance(micw0[0][1], tuple)
+    if okg:
+        mk, msy = micw0[0][1]
+        names = dict(msy)
+        frm_len = [n_ for n_ in dict(frmw[0][2][1]) if n_.startswith('len(')]
+        port_terms = [n_ for n_ in names if n_.startswith('map_or(')]
+        okg = mk == 8 and fl[0] in names and len(frm_len) == 1 and frm_len[0] in names and len(port_terms) == 1 and all(v_ == 1 for v_ in names.values()) and len(names) == 3
+        # the `+1` closure: map_or(port, 0, |_| 1)
+        cl = [p_ for p_ in prog.by_short if p_.endswith('DataFrame::build_into::{closure#0}')]
+        one = False
+        if len(cl) == 1:
+            cb = prog.by_short[cl[0]][0]
+            one = any(s_.k == 'assign' and s_.lhs.local == 0 and s_.rv.k == 'use' and s_.rv.ops[0].const_int() == 1 for b_ in cb.blocks for s_ in b_.stmts)
+        okg = okg and one and ', 0, ' in port_terms[0]
+    res.require(okg, 'C01:DataFrame::build_into:contiguous', 'MIC offset is not 8 + len(FOpts) + (1 if a port is present) + len(FRMPayload): %s' % ((micw0[0][1] if micw0 else None),), bf.body.path,
+                'COVERAGE(MIC starts where the payload ends)', instance='frame bytes are contiguous: header 8 | FOpts | [FPort] | FRMPayload | MIC')
     # payload / port / key per Payload arm
     tup = None
     for x in writes:
@@ -289,6 +308,45 @@ def run(tier):
     types = sorted(x[3][1] for x in cf if x[0] == 'byte' and x[1] == 28 and x[3][0] == 'const')
     res.require(types == [0, 1] and any(x[0] == 'range' and (x[1], x[2]) == (13, 22) for x in cf), 'C01:JoinAccept::build_into:cflist', 'CFList is not written at 13.. with its type byte (0 / 1) at 28: %s' % [(x[0], x[1], x[2]) for x in cf],
                 jb.body.path, 'SPEC-LAYOUT(CFList)', instance='CFList at bytes 13..29: type 0 = five 3-byte frequencies, type 1 = 9-byte mask, type byte last')
+    # coverage: with a CFList every byte 13..29 is written on either arm (a reused buffer must not shine through)
+    raw = buffer_script(jb, lambda t: term_contains(t, lambda y: y == ('param', jbuf)))
+    cfv = rules.variants_of(prog, 'parser::CfList')
+    arms = {'FixedChannel': [], 'DynamicChannel': []}
+    for w in raw:
+        if w.kind == 'call' and not (w.callee or '').endswith('::fill'):
+            continue
+        if w.kind in ('byte', 'range', 'call') and (off(w.start) if w.start is not None else None) is not None:
+            arm = None
+            for cnd in path_conditions(jb, w.bb):
+                if cnd[0][0] == 'discr' and 'c_f_list' in term_str(cnd[0]) and 'Some' in term_str(cnd[0]) and len(cnd[1]) == 1 and cnd[1][0] in cfv.values():
+                    arm = [k_ for k_, v_ in cfv.items() if v_ == cnd[1][0]][0]
+            if arm:
+                arms[arm].append(w)
+    def const_cover(ws):
+        cov = set()
+        for w in ws:
+            a = off(w.start)
+            b_ = off(w.end) if w.end is not None else (a + 1 if w.kind == 'byte' else None)
+            if isinstance(a, int) and isinstance(b_, int):
+                cov.update(range(a, b_))
+        return cov
+    fixed_cov = const_cover(arms['FixedChannel'])
+    dyn_cov = const_cover(arms['DynamicChannel'])
+    strided = [w for w in arms['DynamicChannel'] if w.kind == 'range' and isinstance(off(w.start), tuple)]
+    okd = False
+    if len(strided) == 1:
+        a, b_ = off(strided[0].start), off(strided[0].end)
+        cft = prog.adts['lorawan::parser::CfList']['variants'][cfv['DynamicChannel']]['fields'][0]['ty']
+        import re as _re
+        m_ = _re.search(r';\s*(\d+)\]', cft)
+        n_el = int(m_.group(1)) if m_ else None
+        okd = a[0] == 13 and b_[0] == 16 and a[1] == b_[1] and len(a[1]) == 1 and a[1][0][1] == 3 and 'enumerate' in a[1][0][0] and n_el is not None and 13 + 3 * n_el == 28
+        if okd:
+            dyn_cov |= set(range(13, 13 + 3 * n_el))
+    want_cov = set(range(13, 29))
+    res.require(fixed_cov == want_cov and okd and dyn_cov == want_cov, 'C01:JoinAccept::build_into:cflist-coverage',
+                'with a CFList not every byte 13..29 is written: fixed arm misses %s, dynamic arm misses %s' % (sorted(want_cov - fixed_cov), sorted(want_cov - dyn_cov)), jb.body.path,
+                'COVERAGE(every output byte written)', instance='JoinAccept CFList: bytes 13..29 fully written on both arms (mask + zero RFU + type; 5 x 3-byte frequencies + type)')
     order = [x for x in sc if x[0] == 'call']
     names = [x[1] for x in order]
     okw = 'write_mic' in names and 'decrypt_block' in names and names.index('write_mic') < names.index('decrypt_block') and 'encrypt_block' not in names
